@@ -71,7 +71,7 @@ def run_checker(ctx, blocks, tag, timeout=300):
 
 STALE_READ_SIG = ("plain read (get/hget/llen/scard/...) answered from the local store of the replica that believes it leads, "
                   "no ReadIndex: misses a write acknowledged through another replica; history linearizable without plain reads")
-NOOP_REPLIES = {("lpop", "n"), ("setnx", "i0"), ("sadd", "i0"), ("srem", "i0"), ("del", "i0")}
+NOOP_REPLIES = {("lpop", "n"), ("setnx", "i0"), ("sadd", "i0"), ("srem", "i0"), ("del", "i0"), ("setox", "n"), ("setxx", "n")}
 
 
 def state_preserving(o):
@@ -174,8 +174,9 @@ def run_cluster(ctx, sub, seed, mode, engine, dur, clients, nseq, replay_cases=N
     d = os.path.join(ctx.run_dir, sub)
     shutil.rmtree(d, ignore_errors=True)
     os.makedirs(d)
-    cmd = "%s -seed %d -out %s -port %d -mode %s -engine %s -dur %ds -clients %d -nseq %d" % (
-        os.path.join(vlib.BIN, CMD), seed, d, port_base(), mode, engine, dur, clients, nseq)
+    tdur = 3 if ctx.tier == "quick" else 8
+    cmd = "%s -seed %d -out %s -port %d -mode %s -engine %s -dur %ds -clients %d -nseq %d -racedur %ds -pairdur %ds" % (
+        os.path.join(vlib.BIN, CMD), seed, d, port_base(), mode, engine, dur, clients, nseq, tdur, tdur)
     if replay_cases:
         cmd += " -replay %s" % replay_cases
     to = dur + 400
@@ -231,14 +232,17 @@ def judge_run(ctx, d, label):
         v = res.get(h, "undecided").split(" ")[0]
         verdicts[v] = verdicts.get(v, 0) + 1
         if v == "nonlin":
-            small = minimise(ctx, h, hs[h])
-            kinds = sorted({o[2].split(":")[0] for o in small})
             # is the violation still there when every plain read is dropped? (then it is about writes alone)
             wo = [o for o in hs[h] if o[2].split(":")[0] not in READS or (len(o) > 4 and o[4].startswith("F"))]
             r2 = run_checker(ctx, [("w", wo)], label + "-w")
             writes_only = r2.get("w", "").startswith("nonlin")
+            n_same = sum(1 for f in fails if f.get("writes_only") == writes_only)
+            if n_same >= (20 if writes_only else 1):
+                continue          # counted in the verdicts; enough cases of this class are reported in full
+            small = minimise(ctx, h, hs[h]) if len(fails) < 8 else [list(o) for o in hs[h]]
+            kinds = sorted({o[2].split(":")[0] for o in small})
             fails.append(dict(
-                name="nonlin-%s-%s-%d" % (label, h.replace(":", ""), ctx.seed),
+                name="nonlin-%s-%s-%d" % (label, h.replace(":", ""), ctx.seed), writes_only=writes_only,
                 case=dict(history=hist_block(h, small), full_history=hist_block(h, hs[h]), key=h,
                           run=label, mode=meta.get("mode"), engine=meta.get("engine"), seed=meta.get("seed"),
                           nemesis=meta.get("nemesis"), violates_with_writes_only=writes_only),
@@ -402,6 +406,7 @@ def run(ctx):
                                   histories=len(order), verdicts=st["verdicts"], ops=meta.get("ops_recorded"),
                                   acknowledged=meta.get("ops_acknowledged"), unknown=meta.get("ops_unknown"),
                                   nemesis_events=len(meta.get("nemesis") or []), settled=meta.get("settled"),
+                                  race_rounds=meta.get("race_rounds"), pair_rounds=meta.get("pair_rounds"),
                                   log_entries_compared=st.get("log_compared"), request_ids=st.get("request_ids"),
                                   corrupted_reply_detected="%d/%d" % (det, tot)))
             for h in order[:1] + order[-1:]:
@@ -435,6 +440,10 @@ def run(ctx):
              "(each key retired after 24-40 operations or 4 unknown outcomes) + seeded nemesis (graceful stop/restart, leader transfer; "
              "with three OS processes also kill -9 / respawn and SIGSTOP / SIGCONT pauses); a history = all operations on one key incl. the final read of every "
              "replica's store. Non-trivial = at least 8 operations and at least one pair overlapping in real time; distinct by hash. "
+             "Before the random load every run has two fault-free targeted phases: RACES (all clients send SET..NX / SET / SETNX / "
+             "DEL / SET..XX on the same fresh key at the same moment, each through its own replica, so that the entries share an "
+             "apply batch) and PAIRS (write through the leader, wait for the reply, then immediately the command whose local no-op "
+             "shortcut matches the state BEFORE that write through a follower: LPUSH->LPOP, DEL->SETNX, SREM->SADD, SADD->SREM). "
              "Sequential cases = single-client operation lists diffed against Lin/Spec.v.",
         histogram=histo,
         histories=hist_total, history_verdicts=verd, operations=ops_total, acknowledged=ack_total, unknown_outcome=unk_total,
